@@ -36,12 +36,36 @@ func init() {
 			}
 			corrP(o, "penc", line, out, fmt.Sprintf("penc:%d:%s:%s", v.Ty, r.Class, lenClass(len(r.Appended))))
 			o.stat("penc-" + r.Class)
+			// second, Go-side oracle: the harness's own renderer of the pinned schema
+			if want, ok := renderPinned(v); ok != (r.Class == "ok") || (ok && !bytes.Equal(want, r.Appended)) {
+				o.violate(Violation{Property: "C02", Kind: "direct", What: "the library's bytes differ from the pinned schema's rendering of the value",
+					Case: "penc - " + v.String(), Expected: hexOf(want), Observed: r.Class + " " + hexOf(r.Appended), Key: "layout:" + tname(v.Ty)})
+			}
 			if r.Class == "ok" {
 				data := append(append([]byte{}, r.Appended...), g.prefix()...)
 				begin("pdec")
 				d := goDec(v.Ty, data, g.mode())
 				corrP(o, "pdec", fmt.Sprintf("%d %s", v.Ty, hexOf(data)), d.Line(), fmt.Sprintf("pdec:%d:%s:%s", v.Ty, d.Class, lenClass(len(data))))
 				o.stat("pdec-" + d.Class)
+			}
+		}
+		// one receiver per type decoded into repeatedly (different keys / bodies in a row): the layout read must be the pinned one
+		recv := map[int]any{}
+		for _, k := range keyedTypes() {
+			for rep := 0; rep < 2; rep++ {
+				v := g.msgWithKey(k.Ty, k.E, true)
+				want, ok := renderPinned(v)
+				if !ok {
+					continue
+				}
+				if recv[k.Ty] == nil {
+					recv[k.Ty] = typeCtors[k.Ty]()
+				}
+				data := append(append([]byte{}, want...), g.prefix()...)
+				begin("pdec reused")
+				d := goDecInto(recv[k.Ty], data, g.mode(), false)
+				corrP(o, "pdec", fmt.Sprintf("%d %s", k.Ty, hexOf(data)), d.Line(), fmt.Sprintf("pdecr:%d:%s", k.Ty, d.Class))
+				o.stat("pdec-reused-" + d.Class)
 			}
 		}
 		// arbitrary bytes through the decoders: layout on the read side
@@ -232,7 +256,38 @@ func init() {
 		}
 		for _, t := range schema.Types {
 			for i := 0; i < per; i++ {
-				corrEnc(o, g.msg(t.ID, true, 0), g.prefix(), g.mode())
+				v := g.msg(t.ID, true, 0)
+				if i%3 == 0 { // zero in scalar fields: an encoder that "fills in" a zero field itself must still use the protocol's order
+					for k, op := range t.fieldOps() {
+						if op.K == "scalar" && g.r.Intn(2) == 0 {
+							v.Fs[k] = &Val{K: 'n'}
+						}
+					}
+				}
+				r := corrEnc(o, v, g.prefix(), g.mode())
+				if r.Class != "ok" || r.Val == nil {
+					continue
+				}
+				// every multi-byte integer of the emitted message, at the offset the pinned layout gives it, must be the
+				// reported value in the protocol's byte order (checked only when the total size is the pinned one)
+				var spans []IntSpan
+				if intSpansMsg(r.Val, 0, &spans) != len(r.Appended) {
+					continue
+				}
+				for _, sp := range spans {
+					if sp.W < 2 {
+						continue
+					}
+					got := r.Appended[sp.Off : sp.Off+sp.W]
+					right, wrong := make([]byte, sp.W), make([]byte, sp.W)
+					putUint(right, sp.E, sp.Val)
+					putUint(wrong, map[string]string{"le": "be", "be": "le"}[sp.E], sp.Val)
+					if !bytes.Equal(got, right) && bytes.Equal(got, wrong) {
+						o.violate(Violation{Property: "C03", Kind: "direct", What: fmt.Sprintf("a %d-byte integer at offset %d of %s is in the wrong byte order", sp.W, sp.Off, t.QName()),
+							Case: "enc - " + v.String(), Expected: hexOf(right), Observed: hexOf(got), Key: "order:" + t.QName()})
+						break
+					}
+				}
 			}
 		}
 		return nil
